@@ -94,6 +94,13 @@ func genC10(t *rapid.T) C10Case {
 						x.Val = raw
 					}
 				})
+				if rapid.IntRange(0, 2).Draw(t, "rawfail") == 0 {
+					// a failing registered operator applied to the raw-typed constant (and a literal), in a branch
+					tree = m.If(m.Var("b0"), m.Op("=", m.Op("c_fail", m.NamedConst(name, raw), m.Const(int64(1)), m.Const(int64(2))), m.Const(int64(0))), tree)
+					if u.Var("b0") == nil {
+						u.Vars = append(u.Vars, VarDecl{Name: "b0", Ty: m.TBool, Val: m.V{X: true}})
+					}
+				}
 			}
 		}
 	}
@@ -335,7 +342,18 @@ func checkC10(c C10Case, r *Rec) *Violation {
 		}
 		if rawConsts {
 			r.Class("raw-typed-constant")
-			continue // (no model of what operators make of raw-typed values: the remaining oracles do not apply)
+			// (no model of what operators make of raw-typed values: the remaining oracles do not apply - except
+			// the model-free one: an evaluation visits every node at most once, so no registered operator is
+			// called more often than calls of it occur in the program, whatever its arguments and its outcome)
+			log.Reset()
+			f := NewFetcher(u, cc, log)
+			if o := Safe(func() (eval.Value, error) { return e.Eval(f.Ctx()) }); o.Panic != nil {
+				return Violf("C10: Eval panics\n%s\n%v", where(), o)
+			}
+			if why := atMostOncePerNode(dt, log.Ev); why != "" {
+				return Violf("C10: %s\n%s\ncalls=%v", why, where(), m.TraceStrings(log.Ev))
+			}
+			continue
 		}
 		if mask == MaskFold {
 			if why := foldingSound(c.Tree, dt, stateless); why != "" {
